@@ -53,5 +53,7 @@ def run(ctx):
     ctx.assumptions = ['SHA-256 injective on the file contents at hand', 'no symlinks in target roots', 'wfD / wfM hypotheses (one target per path; no manifest file among desired / recorded paths)']
     ctx.proof_phase(extra_targets=['Corr/Check_Deploy.vo'])
     witnesses(ctx)
+    # two targets sharing one root directory (codex project scope + zed in the project root), deploys with and without --target
+    ds.run_hist_stream(ctx, 6 if quick else 80, 5, props={'C15'}, weights={'deploy': 1}, stream='shared_root_hist', setup=ds.setup_shared_root)
     ds.run_hist_stream(ctx, 16 if quick else 250, 6 if quick else 9, props={'C15'},
                        weights={'deploy': 6, 'rollback': 2, 'bootstrap': 2, 'restore': 2}, stream='ledger_hist')
